@@ -6,10 +6,13 @@ import hirq, anchors, cone, engine
 EXPLANATION = ("H1 panic-source cone over the MIR call graph (resolved callees, closures, trait-object fan-out) from the frame decoder "
                "and the driver's response arm: every diverging call (panic!/unimplemented!/assert), every Assert terminator (bounds, "
                "overflow) and every call to an external function that may panic (#[track_caller] or the frozen may-panic table) must be "
-               "absent, decided by a discharge rule that re-reads the code on every run (guarded arithmetic, operands bounded by construction, "
-               "the consumed prefix, capped allocations, ...) or reviewed in rules/triage/C11.tsv (one reason per line); H2 every recursive cycle in that cone must be bounded "
-               "by a depth parameter compared with a constant before the recursive call; H3 inside the TLV parser an `Incomplete` from a "
-               "streaming parser applied to a take(len)-bounded content slice must not be propagated outward with `?`; H4 a decode error "
+               "absent, decided by a discharge rule that re-reads the code on every run (guarded arithmetic - also `x += c` on a local stored only there, once per call -, operands "
+               "and indices bounded by construction against the array length of the indexed type, the consumed prefix, capped allocations, ...) or reviewed in rules/triage/C11.tsv (one reason per line); "
+               "H2 every recursive cycle in that cone must be bounded: for a function that calls itself, on its enumerated paths (loops as one generic iteration) the entry depth has been "
+               "compared with a constant, leaving on the far side, when a recursive call is made, and the call passes entry depth + 1 on every iteration however the step is spelled; "
+               "a cycle through several functions by a depth parameter compared with a constant before the recursive call; H3 on the paths of the TLV parser an `Incomplete` that stems from a "
+               "parser applied to a take(len)-bounded content slice (or the cursor walking it) is never what the function returns - converted at the call, in the callee under `depth > 0` "
+               "(decided by induction over the nesting), or both; H4 a decode error "
                "leaves the driver loop with Err (dropping all reply senders).  Not decided: memory exhaustion on huge announced lengths; "
                "panics inside external crates beyond the may-panic table.")
 TRUSTED = ['the frozen may-panic classification of external callees (listed in the evidence)', 'reviewed triage table rules/triage/C11.tsv']
